@@ -192,10 +192,13 @@ func e5Harness(t testing.TB, c e5Case) sched.Harness {
 			_ = inst.watcher.HandleCsvTx(uint64(inst.chain.Tip()))
 		}})
 		if c.Pay {
+			var payreqs []string
+			for _, inv := range inst.w.LN[scn.IDA].Invoices {
+				payreqs = append(payreqs, inv.Payreq)
+			}
 			th = append(th, sched.NamedFunc{Name: "payment", F: func() {
-				li := inst.w.LN[scn.IDA]
-				for _, inv := range li.Invoices {
-					_, _ = inst.w.LN[scn.IDB].Pay(nil, inv.Payreq, scn.Scid, 0, "ln.payclaim")
+				for _, pr := range payreqs {
+					_, _ = inst.w.LN[scn.IDB].Pay(nil, pr, scn.Scid, 0, "ln.payclaim")
 				}
 			}})
 		}
